@@ -116,6 +116,51 @@ def out_finality_by_value(chk, repo, key, clause):
     return n
 
 
+def agrees_with_reference(chk, clause, repo, key, ref_src, what, inline=(), types=None, config=None, max_paths=512):
+    """Sibling cross-check against a reference implementation kept in the checker: both are evaluated to normal forms with
+    the same helpers inlined, paths are paired by their (flattened, canonical) conditions and the results compared.
+    Verdict True when every path has a partner with an equal result, False when a partner exists and the results differ,
+    undecided when the case splits do not correspond."""
+    from ..model import FuncInfo
+    from ..rules import literals, conds_str
+    f = repo.func(key)
+    node = ast.parse(ref_src).body[0]
+    ref = FuncInfo(f.module, '__reference__' + f.name, node, cls=f.cls)
+    _, cp, _ = analyse(repo, f, inline=list(inline), types=types, config=config, max_paths=max_paths)
+    _, rp, _ = analyse(repo, ref, inline=list(inline), types=types, config=config, max_paths=max_paths)
+
+    def keyof(p):
+        return frozenset((nf.vkey(c), bool(pol)) for c, pol in literals(p.conds))
+
+    def outcome(p):
+        return ('return', p.ret) if p.status == 'return' else (p.status, getattr(p, 'exc', None))
+    refs = {}
+    for p in rp:
+        refs.setdefault(keyof(p), p)
+    n_ok = 0
+    for p in cp:
+        q = refs.get(keyof(p))
+        if q is None:
+            # no reference path under exactly these tests: look for the reference paths these tests are compatible with
+            mine = dict(keyof(p))
+            comp = [r for r in rp if all(mine.get(k, v) == v for k, v in keyof(r))]
+            same = comp and all(outcome(r) == outcome(p) for r in comp)
+            none = comp and not any(outcome(r) == outcome(p) for r in comp)
+            chk.ob(clause, 'N-sibling', key, f'{what} [{conds_str(p)[:80]}]', True if same else (False if none else None),
+                   f'{len(comp)} compatible reference path(s), all with this result' if same else
+                   (f'result {fmt(p.ret)[:120] if p.status == "return" else p.status} is none of the results the reference gives '
+                    f'under these tests (e.g. {fmt(comp[0].ret)[:120] if comp[0].status == "return" else comp[0].status})' if none else
+                    'the case split differs from the reference implementation: not decided'), f.loc(p.node))
+            continue
+        same = outcome(p) == outcome(q)
+        n_ok += bool(same)
+        chk.ob(clause, 'N-sibling', key, f'{what} [{conds_str(p)[:80]}]', same,
+               'equal to the reference implementation' if same else
+               f'result {fmt(p.ret)[:140] if p.status == "return" else p.status}; reference: '
+               f'{fmt(q.ret)[:140] if q.status == "return" else q.status}', f.loc(p.node))
+    return n_ok
+
+
 def cached_functions(repo):
     return {f.key for f in repo.all_functions() if f.is_cached}
 
